@@ -151,6 +151,12 @@ class Counts:
                     return None
                 if o.path:
                     return None
+                if isinstance(val, ast.Subscript):
+                    ci = self._tuple_component(cfg, val, o.stmt)
+                    if ci is None:
+                        return None
+                    found.append(ci)
+                    continue
                 ci = self.classify_expr_shallow(val)
                 if ci is None:
                     return None
@@ -160,12 +166,35 @@ class Counts:
             if found and len({(i.kind, i.types, i.fixable, i.root) for i in found}) == 1:
                 return found[0]
             return None
-        if isinstance(e, ast.Subscript) and isinstance(e.value, ast.Call) and last_attr(e.value) in self.tuple_summaries:
-            idx = e.slice.value if isinstance(e.slice, ast.Constant) else None
-            comp = self.tuple_summaries[last_attr(e.value)]
-            if isinstance(idx, int) and idx < len(comp) and comp[idx] is not None:
-                ci = comp[idx]
-                return CountInfo(ci.kind, ci.types, ci.fixable, ci.warn_filtered, self._canon_root(cfg, root_name(e.value), at), via=f"{last_attr(e.value)}()[{idx}]")
+        if isinstance(e, ast.Subscript):
+            return self._tuple_component(cfg, e, at)
+        return None
+
+    def _tuple_component(self, cfg, e: ast.Subscript, at) -> Optional[CountInfo]:
+        """``f()[k]`` or ``t[k]`` with ``t`` a local bound (on every path) to the whole tuple
+        returned by one summarised count method: component k of that method's summary."""
+        idx = e.slice.value if isinstance(e.slice, ast.Constant) else None
+        if not isinstance(idx, int) or idx < 0:
+            return None
+        calls: List[Tuple[ast.Call, object]] = []
+        if isinstance(e.value, ast.Call):
+            calls.append((e.value, at))
+        elif isinstance(e.value, ast.Name):
+            for o in origins(cfg, e.value, at):
+                if o.kind != "expr" or o.path or not isinstance(o.expr, ast.Call):
+                    return None
+                calls.append((o.expr, o.stmt))
+        found: List[CountInfo] = []
+        for call, st in calls:
+            if last_attr(call) not in self.tuple_summaries or not isinstance(call.func, ast.Attribute):
+                return None
+            comp = self.tuple_summaries[last_attr(call)]
+            if idx >= len(comp) or comp[idx] is None:
+                return None
+            ci = comp[idx]
+            found.append(CountInfo(ci.kind, ci.types, ci.fixable, ci.warn_filtered, self._canon_root(cfg, root_name(call), st), via=f"{last_attr(call)}()[{idx}] <- {ci.via}"))
+        if found and len({(i.kind, i.types, i.fixable, i.root) for i in found}) == 1:
+            return found[0]
         return None
 
     def _canon_root(self, cfg, name: Optional[str], at) -> Optional[str]:
@@ -181,6 +210,16 @@ class Counts:
                 d = next(iter(ds))
                 if d.kind == "assign" and isinstance(d.value, ast.Name) and not d.path:
                     cur, at = d.value.id, d.stmt
+                    continue
+                # a local naming a member of the object (``f = result.paths[0].files[0]``):
+                # same root as the spelled-out chain (attribute / subscript steps only)
+                v = d.value if d.kind == "assign" and not d.path else None
+                steps = 0
+                while isinstance(v, (ast.Attribute, ast.Subscript)):
+                    v = v.value
+                    steps += 1
+                if steps and isinstance(v, ast.Name):
+                    cur, at = v.id, d.stmt
                     continue
             break
         return cur
